@@ -38,14 +38,18 @@ def instances(tier, seed):
     out = []
     cfgs = [('PIT', {'fam': 'T1', 'K': 2, 'C': 2}, False), ('PIT', {'fam': 'D2', 'C': 2, 'cin': 2}, True), ('PIT', {'fam': 'T1', 'K': 2, 'C': 2}, True),
             ('MPS', {'fam': 'ML', 'bn': False, 'wtype': 'layer', 'w': [2, 8], 'a': [4, 8]}, False), ('MPS', {'fam': 'ML', 'bn': False, 'wtype': 'layer', 'w': [2, 8], 'a': [4, 8]}, True),
-            ('SuperNet', {'n': 2, 'kind': 'conv'}, False), ('SuperNet', {'n': 2, 'kind': 'conv'}, True)]
+            ('SuperNet', {'n': 2, 'kind': 'conv'}, False), ('SuperNet', {'n': 2, 'kind': 'conv'}, True),
+            # a layer excluded from the search: with full_cost its (constant) cost is part of every metric
+            ('PIT', {'fam': 'X1', 'kind': 'conv', 'exclude': 'name'}, True, (False,))]
     if tier == 'thorough':
+        cfgs += [('PIT', {'fam': 'X1', 'kind': 'conv', 'exclude': 'name'}, True, (True,)), ('PIT', {'fam': 'X1', 'kind': 'linear', 'exclude': 'type'}, True)]
         cfgs += [('PIT', {'fam': 'A1', 'K': 2, 'C': 2}, True), ('PIT', {'fam': 'W1', 'nd': 2}, True), ('MPS', {'fam': 'MD', 'wtype': 'layer', 'w': [2, 8], 'a': [4, 8]}, True),
                  ('SuperNet', {'n': 3, 'kind': 'mix'}, True), ('SuperNet', {'n': 2, 'kind': 'mix', 'blocks': 2}, True)]
-    for method, spec, full in cfgs:
+    for cfg in cfgs:
+        method, spec, full = cfg[:3]
         ops = OPS[method]
         seqs = [(o,) for o in ops] + list(itertools.product(ops, repeat=2)) + (list(itertools.product(ops, repeat=3)) if tier == 'thorough' and method != 'PIT' else [])
-        for training in (False, True):
+        for training in (cfg[3] if len(cfg) > 3 else (False, True)):
             for i in range(0, len(seqs), 8):
                 chunk = seqs[i:i + 8]
                 ident = pitlib.prog_id(spec) if method == 'PIT' else (mpslib.prog_id(spec) if method == 'MPS' else snlib.prog_id(spec))
